@@ -73,7 +73,8 @@ class C11(Prop):
         if kind == "fil-dm":
             # DMs large enough that the per-channel delays are really non-zero (max delay 1 … ~25 samples),
             # and gulps on both sides of 2*maxdelay so that the clamped-gulp path runs over several blocks
-            c["dm"] = rng.choice((6.0, 20.0, 40.0, 80.0, 150.0))
+            c["dm"] = rng.choice((6.0, 20.0, 40.0, 80.0, 150.0, -20.0, -80.0))
+            c["asc"] = rng.random() < 0.3         # delays negative relative to fch1 (ascending band / negative DM)
             c["C"] = max(C, rng.choice((2, 4, 8)))
             c["N"] = max(N, rng.choice((120, 200, 300)))
             c["g"] = rng.choice((3, 7, 16, 25, 40, 64, c["N"], rng.randint(1, c["N"])))
@@ -181,9 +182,11 @@ class C11(Prop):
                 ts = TimeSeries(x[:, 0].astype(np.float32), h)
                 fd = ts.fold(case["period"], accel=case["accel"], nbins=case["nbins"], nints=case["nints"])
                 return {"cube": [float(v) for v in fd.data.ravel()], "shape": list(fd.data.shape), "delays": [0]}
-            p = spfiles.write_fil(d / "in.fil", x, case["nbits"], fch1=FCH1, foff=FOFF, tsamp=TSAMP)
+            fch1, foff = (FCH1 + FOFF * 30, -FOFF) if case.get("asc") else (FCH1, FOFF)
+            p = spfiles.write_fil(d / "in.fil", x, case["nbits"], fch1=fch1, foff=foff, tsamp=TSAMP)
             fil = FilReader(str(p))
-            dl = [int(v) for v in np.atleast_1d(fil.header.get_dmdelays(case["dm"]))]
+            dl = np.atleast_1d(fil.header.get_dmdelays(case["dm"])).astype(int)
+            dl = [int(v) for v in dl - min(0, int(dl.min()))]      # referred to the earliest channel, as the fold does
             if max(dl) >= N // 2:
                 return {"skip": True}
             fd = fil.fold(case["period"], case["dm"], accel=case["accel"], nbins=case["nbins"], nints=case["nints"],
